@@ -1,7 +1,7 @@
 (* Lemmas about Model/Fteid.v: the TEID generator (all cursor positions, all used sets, all
    operation sequences), the local-SEID choice (all draw streams) and the establishment step. *)
 From Coq Require Import ZArith NArith List Bool Lia ZifyN ZifyNat ZifyBool Permutation.
-From UPF Require Import Model.Fteid.
+From UPF Require Import Base.Lists Model.Fteid.
 Import ListNotations.
 Ltac Zify.zify_post_hook ::= Z.div_mod_to_equations.
 Open Scope N_scope.
@@ -385,128 +385,115 @@ Proof.
 Qed.
 
 (* ------------------------------------------------------------------ establishment *)
-(* what build_pdrs does to the generator and what it returns *)
-Lemma build_pdrs_spec lseid access ps : forall g g' ds, wf g ->
-  build_pdrs lseid access g ps = (g', inr ds) ->
+Lemma release_wf ts : forall g, wf g -> wf (release ts g).
+Proof.
+  unfold release. induction ts as [|t r IH]; intros g H; cbn [fold_left]; [exact H|].
+  apply IH. now apply wf_free.
+Qed.
+
+Lemma live_release ts : forall g id,
+  In id (live_ids (release ts g)) <-> In id (live_ids g) /\ ~ In id ts.
+Proof.
+  unfold release. induction ts as [|t r IH]; intros g id; cbn [fold_left].
+  - cbn [In]. tauto.
+  - rewrite IH, live_ids_free, In_del. cbn [In]. split.
+    + intros [[H1 H2] H3]. split; [exact H1|]. intros [E|E]; [congruence|contradiction].
+    + intros [H1 H2]. split; [split; [exact H1|]|]; intros E; apply H2; [left; congruence|now right].
+Qed.
+
+Lemma allocate_live g id g' : wf g -> allocate g = AOk id g' ->
+  live_ids g' = id :: live_ids g /\ ~ In id (live_ids g) /\ 1 <= id <= MAXV.
+Proof.
+  intros Hw Ea. destruct (allocate_fresh g id g' (proj1 Hw) Ea) as (Hr & Hn & Hu & _).
+  split; [|split; [|exact Hr]].
+  - unfold live_ids. rewrite Hu. cbn [map]. f_equal. unfold MINV. lia.
+  - intros Hin. apply Hn. unfold live_ids in Hin. apply in_map_iff in Hin.
+    destruct Hin as (o & Eo & Ho). unfold MINV in Eo. now replace (id - 1) with o by lia.
+Qed.
+
+(* what the Create PDR loop does to the generator and what it returns, whatever the outcome *)
+Lemma build_pdrs_spec lseid access ps : forall g g' ds c, wf g ->
+  build_pdrs lseid access g ps = (g', ds, c) ->
   wf g' /\
   Forall (fun d => d_fseid d = lseid) ds /\
-  map d_id ds = map cp_id ps /\
-  (* chosen TEIDs: non-zero, fresh, pairwise distinct, marked used afterwards, access IP *)
-  (let chosen := map d_teid (filter d_choose ds) in
-   NoDup chosen /\
-   Forall (fun t => 1 <= t <= MAXV /\ ~ In t (live_ids g) /\ In t (live_ids g')) chosen /\
-   Permutation (live_ids g') (rev chosen ++ live_ids g)) /\
+  (* chosen TEIDs: non-zero, fresh, pairwise distinct, marked used afterwards *)
+  NoDup (chosen ds) /\
+  Forall (fun t => 1 <= t <= MAXV /\ ~ In t (live_ids g)) (chosen ds) /\
+  Permutation (live_ids g') (rev (chosen ds) ++ live_ids g) /\
   Forall (fun d => d_choose d = true -> d_ip d = access) ds /\
-  Forall2 (fun p d => d_choose d = cp_choose p /\
-                      (cp_choose p = false -> d_teid d = cp_teid p /\
-                          d_ip d = if cp_teid p =? 0 then 0 else cp_ip p)) ps ds.
+  c <> Some 0 /\
+  (c = None -> map d_id ds = map cp_id ps).
 Proof.
-  induction ps as [|p r IH]; intros g g' ds Hw; cbn [build_pdrs].
-  - intros H. injection H as <- <-. cbn [filter map rev app].
-    split; [exact Hw|]. split; [constructor|]. split; [reflexivity|].
-    split; [split; [constructor|split; [constructor|apply Permutation_refl]]|].
-    split; constructor.
-  - destruct (cp_parse_ok p); cbn [negb]; [|discriminate].
+  induction ps as [|p r IH]; intros g g' ds c Hw; cbn [build_pdrs].
+  - intros H. injection H as <- <- <-. unfold chosen. cbn [filter map rev app].
+    split; [exact Hw|]. split; [constructor|]. split; [constructor|]. split; [constructor|].
+    split; [apply Permutation_refl|]. split; [constructor|]. split; [discriminate|reflexivity].
+  - destruct (cp_parse_ok p); cbn [negb].
+    2:{ intros H. injection H as <- <- <-. unfold chosen. cbn [filter map rev app].
+        split; [exact Hw|]. split; [constructor|]. split; [constructor|]. split; [constructor|].
+        split; [apply Permutation_refl|]. split; [constructor|]. split; discriminate. }
     destruct (cp_choose p) eqn:Ech.
     + pose proof (allocate_cases g (proj1 Hw)) as C.
-      destruct (allocate g) as [id g1|g1|] eqn:Ea; [| discriminate|contradiction].
-      destruct (build_pdrs lseid access g1 r) as [g2 [c|ds']] eqn:Eb; [discriminate|].
-      intros H. injection H as <- <-.
-      pose proof (wf_allocate g id g1 Hw Ea) as Hw1.
-      destruct (allocate_fresh g id g1 (proj1 Hw) Ea) as (Hr & Hn & Hu & _).
-      assert (El : live_ids g1 = id :: live_ids g).
-      { unfold live_ids. rewrite Hu. cbn [map]. f_equal. unfold MINV. lia. }
-      assert (Hnl : ~ In id (live_ids g)).
-      { intros Hin. apply Hn. unfold live_ids in Hin. apply in_map_iff in Hin.
-        destruct Hin as (o & Eo & Ho). unfold MINV in Eo. now replace (id - 1) with o by lia. }
-      destruct (IH g1 g2 ds' Hw1 Eb) as (Hw2 & Hf & Hid & (Hnd & Hch & Hp) & Hip & Hf2).
-      cbn [filter d_choose map d_teid d_fseid d_id d_ip rev] in *.
-      split; [|split; [|split; [|split; [split; [|split]|split]]]].
-      * exact Hw2.
-      * constructor; [reflexivity|exact Hf].
-      * now rewrite Hid.
-      * constructor; [|exact Hnd]. intros Hin. rewrite Forall_forall in Hch.
-        apply Hch in Hin. destruct Hin as (_ & Hin & _). apply Hin. rewrite El. now left.
-      * constructor.
-        -- split; [exact Hr|]. split; [exact Hnl|].
-           eapply Permutation_in; [symmetry; exact Hp|]. apply in_or_app. right. rewrite El. now left.
-        -- eapply Forall_impl; [|exact Hch]. cbn beta. intros t (H1 & H2 & H3).
-           split; [exact H1|]. split; [|exact H3]. intros Hin. apply H2. rewrite El. now right.
-      * etransitivity; [exact Hp|]. rewrite El. rewrite <- app_assoc. cbn [app]. apply Permutation_refl.
-      * constructor; [reflexivity|exact Hip].
-      * constructor; [|exact Hf2]. cbn [d_choose]. rewrite Ech. split; [reflexivity|discriminate].
-    + assert (exists d, (if cp_teid p =? 0 then (g, @inr N dpdr (DPdr lseid (cp_id p) 0 0 false))
-                         else (g, inr (DPdr lseid (cp_id p) (cp_teid p) (cp_ip p) false))) = (g, inr d) /\
-                        d_fseid d = lseid /\ d_id d = cp_id p /\ d_choose d = false /\
-                        d_teid d = cp_teid p /\ d_ip d = if cp_teid p =? 0 then 0 else cp_ip p) as (d & -> & D1 & D2 & D3 & D4 & D5).
-      { destruct (N.eqb_spec (cp_teid p) 0) as [E0|E0]; eexists; repeat split; cbn; try reflexivity. now rewrite E0. }
-      destruct (build_pdrs lseid access g r) as [g2 [c|ds']] eqn:Eb; [discriminate|].
-      intros H. injection H as <- <-.
-      destruct (IH g g2 ds' Hw Eb) as (Hw2 & Hf & Hid & (Hnd & Hch & Hp) & Hip & Hf2).
-      cbn [filter map]. rewrite D3.
-      split; [exact Hw2|split; [|split; [|split; [split; [exact Hnd|split; [exact Hch|exact Hp]]|split]]]].
-      * now constructor.
-      * cbn [map]. now rewrite D2, Hid.
-      * constructor; [rewrite D3; discriminate|exact Hip].
-      * constructor; [|exact Hf2]. split; [congruence|]. intros _. now split.
-Qed.
-
-Lemma build_pdrs_wf lseid access ps : forall g, wf g -> wf (fst (build_pdrs lseid access g ps)) /\
-  (forall id, In id (live_ids g) -> In id (live_ids (fst (build_pdrs lseid access g ps)))) /\
-  snd (build_pdrs lseid access g ps) <> inl 0.
-Proof.
-  induction ps as [|p r IH]; intros g Hw; cbn [build_pdrs].
-  - cbn. repeat split; [apply Hw..|auto|discriminate].
-  - destruct (cp_parse_ok p); cbn [negb fst snd]; [|repeat split; [apply Hw..|auto|discriminate]].
-    destruct (cp_choose p).
-    + pose proof (allocate_cases g (proj1 Hw)) as C.
       destruct (allocate g) as [id g1|g1|] eqn:Ea; [| |contradiction].
-      * pose proof (wf_allocate g id g1 Hw Ea) as Hw1.
-        destruct (allocate_fresh g id g1 (proj1 Hw) Ea) as (_ & _ & Hu & _).
-        destruct (IH g1 Hw1) as (I1 & I2 & I3).
-        destruct (build_pdrs lseid access g1 r) as [g2 [c|ds']]; cbn [fst snd] in *.
-        -- split; [exact I1|]. split; [|exact I3]. intros x Hx. apply I2. unfold live_ids in *.
-           rewrite Hu. cbn [map]. now right.
-        -- split; [exact I1|]. split; [|discriminate]. intros x Hx. apply I2. unfold live_ids in *.
-           rewrite Hu. cbn [map]. now right.
-      * destruct C as (-> & _). cbn [fst snd]. split; [exact Hw|]. split; [auto|discriminate].
-    + assert (E : (if cp_teid p =? 0 then (g, @inr N dpdr (DPdr lseid (cp_id p) 0 0 false))
-                   else (g, inr (DPdr lseid (cp_id p) (cp_teid p) (cp_ip p) false))) =
-                  (g, inr (if cp_teid p =? 0 then DPdr lseid (cp_id p) 0 0 false
-                           else DPdr lseid (cp_id p) (cp_teid p) (cp_ip p) false)))
-        by (destruct (cp_teid p =? 0); reflexivity).
-      rewrite E. destruct (IH g Hw) as (I1 & I2 & I3).
-      destruct (build_pdrs lseid access g r) as [g2 [c|ds']]; cbn [fst snd] in *.
-      * split; [exact I1|]. split; [exact I2|exact I3].
-      * split; [exact I1|]. split; [exact I2|discriminate].
+      * destruct (build_pdrs lseid access g1 r) as [[g2 ds'] c'] eqn:Eb.
+        intros H. injection H as <- <- <-.
+        pose proof (wf_allocate g id g1 Hw Ea) as Hw1.
+        destruct (allocate_live g id g1 Hw Ea) as (El & Hnl & Hr).
+        destruct (IH g1 g2 ds' c' Hw1 Eb) as (Hw2 & Hf & Hnd & Hch & Hp & Hip & Hc0 & Hid).
+        unfold chosen in *. cbn [filter d_choose map d_teid d_fseid d_id d_ip rev] in *.
+        split; [exact Hw2|]. split; [constructor; [reflexivity|exact Hf]|].
+        split.
+        { constructor; [|exact Hnd]. intros Hin. rewrite Forall_forall in Hch.
+          apply Hch in Hin. destruct Hin as (_ & Hin). apply Hin. rewrite El. now left. }
+        split.
+        { constructor; [split; assumption|]. eapply Forall_impl; [|exact Hch]. cbn beta.
+          intros t (H1 & H2). split; [exact H1|]. intros Hin. apply H2. rewrite El. now right. }
+        split.
+        { etransitivity; [exact Hp|]. rewrite El, <- app_assoc. cbn [app]. apply Permutation_refl. }
+        split; [constructor; [reflexivity|exact Hip]|]. split; [exact Hc0|].
+        intros E. cbn [map]. now rewrite (Hid E).
+      * destruct C as (-> & _). intros H. injection H as <- <- <-. unfold chosen. cbn [filter map rev app].
+        split; [exact Hw|]. split; [constructor|]. split; [constructor|]. split; [constructor|].
+        split; [apply Permutation_refl|]. split; [constructor|]. split; discriminate.
+    + set (d := if cp_teid p =? 0 then DPdr lseid (cp_id p) 0 0 false
+                else DPdr lseid (cp_id p) (cp_teid p) (cp_ip p) false).
+      assert (D : d_fseid d = lseid /\ d_id d = cp_id p /\ d_choose d = false).
+      { unfold d. destruct (cp_teid p =? 0); cbn; repeat split. }
+      destruct D as (D1 & D2 & D3).
+      destruct (build_pdrs lseid access g r) as [[g2 ds'] c'] eqn:Eb.
+      intros H. injection H as <- <- <-.
+      destruct (IH g g2 ds' c' Hw Eb) as (Hw2 & Hf & Hnd & Hch & Hp & Hip & Hc0 & Hid).
+      unfold chosen in *. cbn [filter map]. rewrite D3.
+      split; [exact Hw2|]. split; [now constructor|]. split; [exact Hnd|]. split; [exact Hch|].
+      split; [exact Hp|]. split; [constructor; [rewrite D3; discriminate|exact Hip]|].
+      split; [exact Hc0|]. intros E. cbn [map]. now rewrite D2, (Hid E).
 Qed.
 
-(* one establishment *)
-Lemma establish_accepted retries access draws aok dok ps c g l created batch c' g' : wf g ->
-  establish retries access draws aok dok ps c g = (EAccepted l created batch, c', g') ->
-  (l <> 0 /\ ~ In l (store c) /\ store c' = l :: store c /\
-   (drawn c < drawn c' <= drawn c + retries)%nat /\ l = draws (drawn c' - 1)%nat) /\
+Lemma created_chosen ds : map (fun x : N * N * N => snd (fst x)) (created_of ds) = chosen ds.
+Proof. unfold created_of, chosen. rewrite map_map. reflexivity. Qed.
+
+(* one establishment, accepted *)
+Lemma establish_accepted retries access draws aok dok ps st i g l created batch j g' : wf g ->
+  establish retries access draws aok dok ps st i g = (EAccepted l created batch, j, g') ->
+  (l <> 0 /\ ~ In l st /\ (i < j <= i + retries)%nat /\ l = draws (j - 1)%nat) /\
   (Forall (fun e => d_fseid e = l) batch /\ map d_id batch = map cp_id ps /\
    created = created_of batch /\
    Forall (fun e => d_choose e = true -> d_ip e = access) batch) /\
-  (let chosen := map (fun x => snd (fst x)) created in
-   NoDup chosen /\
-   Forall (fun t => 1 <= t <= MAXV /\ ~ In t (live_ids g) /\ In t (live_ids g')) chosen) /\
+  (NoDup (chosen batch) /\
+   Forall (fun t => 1 <= t <= MAXV /\ ~ In t (live_ids g)) (chosen batch) /\
+   Permutation (live_ids g') (rev (chosen batch) ++ live_ids g)) /\
   wf g'.
 Proof.
   intros Hw. unfold establish. destruct aok; cbn [negb]; [|discriminate].
-  destruct (new_seid retries draws (drawn c) (store c)) as [[l0|] i] eqn:Es; [|discriminate].
-  destruct (build_pdrs l0 access g ps) as [g1 [cause|ds]] eqn:Eb; [discriminate|].
+  destruct (new_seid retries draws i st) as [[l0|] i'] eqn:Es; [|discriminate].
+  destruct (build_pdrs l0 access g ps) as [[g1 ds] [cause|]] eqn:Eb; [discriminate|].
   destruct dok; [|discriminate]. intros H. injection H as <- <- <- <- <-.
   destruct (new_seid_fresh _ _ _ _ _ _ Es) as (S1 & S2 & S3 & S4 & _).
-  pose proof (new_seid_bound retries draws (drawn c) (store c)) as Sb. rewrite Es in Sb. cbn [snd] in Sb.
-  destruct (build_pdrs_spec _ _ _ _ _ _ Hw Eb) as (Hw1 & Hf & Hid & (Hnd & Hch & _) & Hip & _).
-  cbn [store drawn].
-  assert (Em : map (fun x : N * N * N => snd (fst x)) (created_of ds) = map d_teid (filter d_choose ds)).
-  { unfold created_of. rewrite map_map. reflexivity. }
+  pose proof (new_seid_bound retries draws i st) as Sb. rewrite Es in Sb. cbn [snd] in Sb.
+  destruct (build_pdrs_spec _ _ _ _ _ _ _ Hw Eb) as (Hw1 & Hf & Hnd & Hch & Hp & Hip & _ & Hid).
   split; [repeat split; try assumption; lia|].
-  split; [repeat split; assumption|].
-  split; [|exact Hw1]. cbn zeta. rewrite Em. split; assumption.
+  split; [split; [exact Hf|split; [now apply Hid|split; [reflexivity|exact Hip]]]|].
+  split; [|exact Hw1]. split; [exact Hnd|split; [exact Hch|exact Hp]].
 Qed.
 
 (* every Created PDR of the response is a PDR handed to the datapath with the same id, TEID and
@@ -523,66 +510,128 @@ Qed.
 
 (* a refusal for lack of a SEID consumes exactly [retries] draws, all of them 0 or stored, and
    changes nothing else *)
-Lemma establish_seid_refusal retries access draws dok ps c g :
-  (forall k, (drawn c <= k < drawn c + retries)%nat -> bad_draw (store c) (draws k) = true) ->
-  establish retries access draws true dok ps c g =
-  (ERefused CAUSE_NO_RESOURCES None, Conn (store c) (drawn c + retries), g).
+Lemma establish_seid_refusal retries access draws dok ps st i g :
+  (forall k, (i <= k < i + retries)%nat -> bad_draw st (draws k) = true) ->
+  establish retries access draws true dok ps st i g =
+  (ERefused CAUSE_NO_RESOURCES None, (i + retries)%nat, g).
 Proof. intros H. unfold establish. cbn [negb]. now rewrite (new_seid_refuse _ _ _ _ H). Qed.
 
-(* the store never changes on a refusal; the generator stays well formed and never loses an id *)
-Lemma establish_any retries access draws aok dok ps c g : wf g ->
-  let '(r, c', g') := establish retries access draws aok dok ps c g in
-  wf g' /\ (forall id, In id (live_ids g) -> In id (live_ids g')) /\
-  (drawn c <= drawn c' <= drawn c + retries)%nat /\
-  match r with
-  | EAccepted l _ _ => store c' = l :: store c
-  | ERefused cause _ => store c' = store c /\ cause <> 0
-  end.
+(* a refused establishment gives back every TEID it had chosen: the set of live TEIDs is as
+   before; the generator stays well formed *)
+Lemma establish_refused retries access draws aok dok ps st i g cause b j g' : wf g ->
+  establish retries access draws aok dok ps st i g = (ERefused cause b, j, g') ->
+  wf g' /\ (forall id, In id (live_ids g') <-> In id (live_ids g)) /\ cause <> 0 /\
+  (i <= j <= i + retries)%nat.
 Proof.
   intros Hw. unfold establish. destruct aok; cbn [negb].
-  2:{ repeat split; try apply Hw; auto; try lia. discriminate. }
-  pose proof (new_seid_bound retries draws (drawn c) (store c)) as Sb.
-  destruct (new_seid retries draws (drawn c) (store c)) as [[l0|] i] eqn:Es; cbn [snd] in Sb.
-  2:{ cbn [drawn store]. repeat split; try apply Hw; auto; try lia. discriminate. }
-  destruct (build_pdrs_wf l0 access ps g Hw) as (B1 & B2 & B3).
-  destruct (build_pdrs l0 access g ps) as [g1 [cause|ds]] eqn:Eb; cbn [fst snd] in *.
-  - cbn [drawn store]. repeat split; try apply B1; auto; try lia. congruence.
-  - destruct dok; cbn [drawn store]; repeat split; try apply B1; auto; try lia. discriminate.
+  2:{ intros H. injection H as <- <- <- <-. repeat split; try apply Hw; auto; try lia. discriminate. }
+  pose proof (new_seid_bound retries draws i st) as Sb.
+  destruct (new_seid retries draws i st) as [[l0|] i'] eqn:Es; cbn [snd] in Sb.
+  2:{ intros H. injection H as <- <- <- <-. repeat split; try apply Hw; auto; try lia. discriminate. }
+  destruct (build_pdrs l0 access g ps) as [[g1 ds] c] eqn:Eb.
+  destruct (build_pdrs_spec _ _ _ _ _ _ _ Hw Eb) as (Hw1 & _ & _ & Hch & Hp & _ & Hc0 & _).
+  assert (R : wf (release (chosen ds) g1) /\
+              forall id, In id (live_ids (release (chosen ds) g1)) <-> In id (live_ids g)).
+  { split; [now apply release_wf|]. intros id. rewrite live_release. split.
+    - intros (H1 & H2). eapply Permutation_in in H1; [|exact Hp]. apply in_app_or in H1.
+      destruct H1 as [H1|H1]; [|exact H1]. apply in_rev in H1. contradiction.
+    - intros H. split.
+      + eapply Permutation_in; [symmetry; exact Hp|]. apply in_or_app. now right.
+      + intros Hc. rewrite Forall_forall in Hch. apply Hch in Hc. now apply Hc. }
+  destruct c as [c|].
+  - intros H. injection H as <- <- <- <-. destruct R as (R1 & R2).
+    split; [exact R1|]. split; [exact R2|]. split; [congruence|lia].
+  - destruct dok; [discriminate|]. intros H. injection H as <- <- <- <-. destruct R as (R1 & R2).
+    split; [exact R1|]. split; [exact R2|]. split; [discriminate|lia].
 Qed.
 
 (* ---- histories over several associations sharing the generator ---- *)
-Definition conn_ok (c : conn) : Prop := NoDup (store c) /\ ~ In 0 (store c).
-Definition WInv (w : world) : Prop := wf (w_gen w) /\ Forall conn_ok (w_conns w).
+Definition skey (s : sess) : nat * N := (s_conn s, s_seid s).
 
-Lemma Forall_set_nth {A} (P : A -> Prop) n x l : Forall P l -> P x -> Forall P (set_nth n x l).
+(* per association the stored SEIDs are pairwise distinct and non-zero; no TEID belongs to two
+   live sessions; every TEID of a live session is marked used in the generator *)
+Definition WInv (w : world) : Prop :=
+  wf (w_gen w) /\
+  NoDup (map skey (w_sess w)) /\
+  Forall (fun s => s_seid s <> 0) (w_sess w) /\
+  NoDup (all_teids (w_sess w)) /\
+  incl (all_teids (w_sess w)) (live_ids (w_gen w)).
+
+Lemma store_of_In k l ss : In l (store_of k ss) <-> In (k, l) (map skey ss).
 Proof.
-  intros Hl Hx. revert n. induction Hl as [|y l Hy Hl IH]; intros n; cbn [set_nth].
-  - destruct n; constructor.
-  - destruct n; constructor; auto.
+  unfold store_of. rewrite !in_map_iff. split.
+  - intros (s & <- & Hs). apply filter_In in Hs. destruct Hs as (Hs & E). apply Nat.eqb_eq in E.
+    exists s. split; [unfold skey; now rewrite E|exact Hs].
+  - intros (s & E & Hs). unfold skey in E. injection E as E1 E2. exists s. split; [exact E2|].
+    apply filter_In. split; [exact Hs|]. now apply Nat.eqb_eq.
 Qed.
 
-Lemma fold_free_wf ids : forall g, wf g -> wf (fold_left (fun g id => free_id id g) ids g).
-Proof. induction ids as [|i r IH]; intros g H; cbn [fold_left]; [exact H|]. apply IH. now apply wf_free. Qed.
+Lemma NoDup_map_filter {A B} (f : A -> B) (p : A -> bool) l : NoDup (map f l) -> NoDup (map f (filter p l)).
+Proof.
+  induction l as [|x l IH]; cbn [map filter]; [auto|]. intros H. inversion H as [|? ? Hn Hd]; subst.
+  destruct (p x); [|now apply IH]. cbn [map]. constructor; [|now apply IH].
+  intros Hin. apply Hn. apply in_map_iff in Hin. destruct Hin as (y & E & Hy).
+  apply filter_In in Hy. apply in_map_iff. exists y. split; [exact E|apply Hy].
+Qed.
+
+Lemma all_teids_filter_incl (p : sess -> bool) ss : incl (all_teids (filter p ss)) (all_teids ss).
+Proof.
+  unfold all_teids. induction ss as [|s ss IH]; cbn [filter map concat]; [apply incl_refl|].
+  destruct (p s); cbn [map concat].
+  - apply incl_app; [apply incl_appl, incl_refl|apply incl_appr, IH].
+  - apply incl_appr, IH.
+Qed.
+
+Lemma NoDup_all_teids_filter (p : sess -> bool) ss : NoDup (all_teids ss) -> NoDup (all_teids (filter p ss)).
+Proof.
+  unfold all_teids. induction ss as [|s ss IH]; cbn [filter map concat]; [auto|]. intros H.
+  apply nodup_app in H. destruct H as (H1 & H2 & H3).
+  destruct (p s); [|now apply IH]. cbn [map concat]. apply nodup_app.
+  split; [exact H1|]. split; [now apply IH|]. intros a Ha Hb. apply (H3 a Ha).
+  now apply (all_teids_filter_incl p ss).
+Qed.
+
+Lemma all_teids_partition (p : sess -> bool) ss t : NoDup (all_teids ss) ->
+  In t (all_teids (filter p ss)) -> In t (all_teids (filter (fun s => negb (p s)) ss)) -> False.
+Proof.
+  unfold all_teids. induction ss as [|s ss IH]; cbn [filter map concat]; [auto|]. intros H.
+  apply nodup_app in H. destruct H as (H1 & H2 & H3).
+  destruct (p s); cbn [negb map concat].
+  - intros Ha Hb. apply in_app_or in Ha. destruct Ha as [Ha|Ha]; [|now apply IH].
+    apply (H3 t Ha). now apply (all_teids_filter_incl (fun s => negb (p s)) ss).
+  - intros Ha Hb. apply in_app_or in Hb. destruct Hb as [Hb|Hb]; [|now apply IH].
+    apply (H3 t Hb). now apply (all_teids_filter_incl p ss).
+Qed.
 
 Lemma ev_step_inv retries access draws w e : WInv w -> WInv (fst (ev_step retries access draws w e)).
 Proof.
-  intros (Hg & Hc). destruct e as [k aok dok ps|k seid freed]; cbn [ev_step].
-  - destruct (nth_error (w_conns w) k) as [c|] eqn:En; [|now split].
-    assert (Hck : conn_ok c) by (rewrite Forall_forall in Hc; apply Hc; eapply nth_error_In; eassumption).
-    pose proof (establish_any retries access (draws k) aok dok ps c (w_gen w) Hg) as A.
-    destruct (establish retries access (draws k) aok dok ps c (w_gen w)) as [[r c'] g'] eqn:Ee.
-    cbn [fst]. destruct A as (A1 & _ & _ & A4). split; cbn [w_gen w_conns]; [exact A1|].
-    apply Forall_set_nth; [exact Hc|]. destruct r as [l cr b|cause b].
-    + destruct (establish_accepted _ _ _ _ _ _ _ _ _ _ _ _ _ Hg Ee) as ((S1 & S2 & S3 & _) & _).
-      destruct Hck as (Hd & H0). unfold conn_ok. rewrite S3. split; [now constructor|].
-      intros [E|E]; [congruence|contradiction].
-    + destruct A4 as (A4 & _). unfold conn_ok. now rewrite A4.
-  - destruct (nth_error (w_conns w) k) as [c|] eqn:En; [|now split].
-    assert (Hck : conn_ok c) by (rewrite Forall_forall in Hc; apply Hc; eapply nth_error_In; eassumption).
-    cbn [fst]. split; cbn [w_gen w_conns]; [now apply fold_free_wf|].
-    apply Forall_set_nth; [exact Hc|]. destruct Hck as (Hd & H0). split; cbn [store].
-    + now apply NoDup_del.
-    + rewrite In_del. tauto.
+  intros (Hg & Hk & H0 & Hn & Hi). destruct e as [k aok dok ps|k seid]; cbn [ev_step].
+  - destruct (establish retries access (draws k) aok dok ps (store_of k (w_sess w)) (w_drawn w k) (w_gen w))
+      as [[r j] g'] eqn:Ee.
+    cbn [fst]. destruct r as [l cr batch|cause b]; unfold WInv; cbn [w_gen w_sess].
+    + destruct (establish_accepted _ _ _ _ _ _ _ _ _ _ _ _ _ _ Hg Ee)
+        as ((S1 & S2 & _) & _ & (T1 & T2 & T3) & Hw').
+      split; [exact Hw'|]. split.
+      { cbn [map]. constructor; [|exact Hk]. unfold skey at 1. cbn [s_conn s_seid].
+        intros Hin. apply S2. now apply store_of_In. }
+      split; [constructor; [exact S1|exact H0]|].
+      unfold all_teids in *. cbn [map concat s_teids]. split.
+      { apply nodup_app. split; [exact T1|]. split; [exact Hn|].
+        intros a Ha Hb. rewrite Forall_forall in T2. apply (T2 a Ha). now apply Hi. }
+      { intros a Ha. eapply Permutation_in; [symmetry; exact T3|]. apply in_or_app.
+        apply in_app_or in Ha. destruct Ha as [Ha|Ha]; [left; now apply in_rev in Ha|right; now apply Hi].
+      }
+    + destruct (establish_refused _ _ _ _ _ _ _ _ _ _ _ _ _ Hg Ee) as (Hw' & Hl & _).
+      split; [exact Hw'|]. split; [exact Hk|]. split; [exact H0|]. split; [exact Hn|].
+      intros a Ha. apply Hl. now apply Hi.
+  - cbn [fst]. unfold WInv; cbn [w_gen w_sess].
+    split; [now apply release_wf|]. split; [now apply NoDup_map_filter|].
+    split.
+    { rewrite Forall_forall in *. intros s Hs. apply filter_In in Hs. now apply H0. }
+    split; [now apply NoDup_all_teids_filter|].
+    intros a Ha. apply live_release. split.
+    + apply Hi. now apply (all_teids_filter_incl _ _ a Ha).
+    + intros Hb. exact (all_teids_partition (is_sess k seid) (w_sess w) a Hn Hb Ha).
 Qed.
 
 Lemma ev_run_cons retries access draws w e r : ev_run retries access draws w (e :: r) =
@@ -597,14 +646,6 @@ Lemma ev_run_inv retries access draws es : forall w, WInv w -> WInv (fst (ev_run
 Proof.
   induction es as [|e r IH]; intros w H; [exact H|]. rewrite ev_run_cons. cbn [fst].
   apply IH. now apply ev_step_inv.
-Qed.
-
-Lemma ev_run_app retries access draws es1 : forall w es2,
-  fst (ev_run retries access draws w (es1 ++ es2)) =
-  fst (ev_run retries access draws (fst (ev_run retries access draws w es1)) es2).
-Proof.
-  induction es1 as [|e r IH]; intros w es2; [reflexivity|].
-  rewrite <- app_comm_cons, !ev_run_cons. cbn [fst]. apply IH.
 Qed.
 
 (* ------------------------------------------------------------------ statements used by Props/C07.v *)
@@ -653,34 +694,42 @@ Lemma c07_seid_draws_100 (draws : stream) i st :
   (i <= snd (new_seid MAX_RETRIES draws i st) <= i + 100)%nat.
 Proof. apply (new_seid_bound MAX_RETRIES draws i st). Qed.
 
-Lemma c07_programmed retries access draws aok dok ps c g l created batch c' g' : wf g ->
-  establish retries access draws aok dok ps c g = (EAccepted l created batch, c', g') ->
+Lemma c07_programmed retries access draws aok dok ps st i g l created batch j g' : wf g ->
+  establish retries access draws aok dok ps st i g = (EAccepted l created batch, j, g') ->
   Forall (fun e => d_fseid e = l) batch /\
   map d_id batch = map cp_id ps /\
   (forall pid t ip, In (pid, t, ip) created <->
      exists e, In e batch /\ d_choose e = true /\ d_id e = pid /\ d_teid e = t /\ d_ip e = ip) /\
   (forall pid t ip, In (pid, t, ip) created -> ip = access /\ 1 <= t <= MAXV).
 Proof.
-  intros Hw E. destruct (establish_accepted _ _ _ _ _ _ _ _ _ _ _ _ _ Hw E)
-    as (_ & (P1 & P2 & -> & P4) & (_ & T2) & _).
+  intros Hw E. destruct (establish_accepted _ _ _ _ _ _ _ _ _ _ _ _ _ _ Hw E)
+    as (_ & (P1 & P2 & -> & P4) & (_ & T2 & _) & _).
   split; [exact P1|]. split; [exact P2|]. split; [intros; apply created_of_spec|].
   intros pid t ip Hin. split.
   - apply created_of_spec in Hin. destruct Hin as (e & He & Hc & _ & _ & <-).
     rewrite Forall_forall in P4. now apply P4.
-  - cbn zeta in T2. rewrite Forall_forall in T2.
-    assert (In t (map (fun x : N * N * N => snd (fst x)) (created_of batch))).
-    { apply in_map_iff. exists (pid, t, ip). now split. }
+  - rewrite Forall_forall in T2.
+    assert (In t (chosen batch)).
+    { rewrite <- created_chosen. apply in_map_iff. exists (pid, t, ip). now split. }
     now apply T2 in H.
 Qed.
 
-Lemma c07_est_ids retries access draws aok dok ps c g l created batch c' g' : wf g ->
-  establish retries access draws aok dok ps c g = (EAccepted l created batch, c', g') ->
-  (l <> 0 /\ ~ In l (store c) /\ store c' = l :: store c) /\
+Lemma c07_est_ids retries access draws aok dok ps st i g l created batch j g' : wf g ->
+  establish retries access draws aok dok ps st i g = (EAccepted l created batch, j, g') ->
+  (l <> 0 /\ ~ In l st) /\
   NoDup (map (fun x => snd (fst x)) created) /\
   Forall (fun t => 1 <= t <= MAXV /\ ~ In t (live_ids g) /\ In t (live_ids g'))
          (map (fun x => snd (fst x)) created).
 Proof.
-  intros Hw E. destruct (establish_accepted _ _ _ _ _ _ _ _ _ _ _ _ _ Hw E)
-    as ((S1 & S2 & S3 & _) & _ & (T1 & T2) & _).
-  repeat split; assumption.
+  intros Hw E. destruct (establish_accepted _ _ _ _ _ _ _ _ _ _ _ _ _ _ Hw E)
+    as ((S1 & S2 & _) & (_ & _ & -> & _) & (T1 & T2 & T3) & _).
+  rewrite created_chosen. split; [now split|]. split; [exact T1|].
+  rewrite Forall_forall in *. intros t Ht. destruct (T2 t Ht) as (A & B).
+  split; [exact A|]. split; [exact B|].
+  eapply Permutation_in; [symmetry; exact T3|]. apply in_or_app. left. now apply in_rev in Ht.
 Qed.
+
+Lemma c07_refused_restores retries access draws aok dok ps st i g cause b j g' : wf g ->
+  establish retries access draws aok dok ps st i g = (ERefused cause b, j, g') ->
+  forall id, In id (live_ids g') <-> In id (live_ids g).
+Proof. intros Hw E. now destruct (establish_refused _ _ _ _ _ _ _ _ _ _ _ _ _ Hw E) as (_ & H & _). Qed.
